@@ -610,3 +610,22 @@ func parseRawWrong(sh *sliceHdr) int {
 
 // UseParseRaw keeps the function reachable.
 func UseParseRaw(sh *sliceHdr) int { return parseRawWrong(sh) }
+
+// L-EARLYLOAD: the presence test is computed before the flag it depends on is read.
+type fieldHdr struct {
+	FieldPic bool
+	Delta    int
+}
+
+func parseEarlyWrong(data []byte, present bool) *fieldHdr {
+	sh := fieldHdr{}
+	deltaPresent := present && !sh.FieldPic
+	sh.FieldPic = len(data) > 0 && data[0]&1 == 1
+	if deltaPresent {
+		sh.Delta = len(data)
+	}
+	return &sh
+}
+
+// UseParseEarly keeps the function reachable.
+func UseParseEarly(data []byte) *fieldHdr { return parseEarlyWrong(data, true) }
